@@ -47,6 +47,7 @@ type daemon struct {
 	requests []string
 	behave   map[string]string // endpoint -> behaviour
 	capHit   bool              // a repeat-stall was not given up on within 40 pin timeouts
+	stuck    string            // endpoint whose silent request was still open after 40 pin timeouts
 	srv      *httptest.Server
 	badUnpin bool // pin/update called without unpin=false
 }
@@ -68,6 +69,19 @@ func drop(w http.ResponseWriter) {
 	}
 }
 
+// waitAbort answers nothing until the client gives the request up; after 40
+// pin timeouts it records that nobody did and drops the connection.
+func (d *daemon) waitAbort(w http.ResponseWriter, r *http.Request, ep string) {
+	select {
+	case <-r.Context().Done():
+	case <-time.After(40 * pinTimeout):
+		d.mu.Lock()
+		d.stuck = ep
+		d.mu.Unlock()
+		drop(w)
+	}
+}
+
 func (d *daemon) handler(w http.ResponseWriter, r *http.Request) {
 	ep := strings.TrimPrefix(r.URL.Path, "/api/v0/")
 	q := r.URL.Query()
@@ -84,6 +98,21 @@ func (d *daemon) handler(w http.ResponseWriter, r *http.Request) {
 		w.Write([]byte("<html>Bad Gateway</html>"))
 		return
 	case "drop":
+		drop(w)
+		return
+	case "hang":
+		d.waitAbort(w, r, ep)
+		return
+	case "cut":
+		// the answer starts (200, headers, the beginning of a JSON object)
+		// and the connection dies in the middle of the body
+		w.Header().Set("Content-Type", "application/json")
+		w.Header().Set("Content-Length", "4096")
+		w.WriteHeader(200)
+		w.Write([]byte(`{"Keys":{"`))
+		if fl, ok := w.(http.Flusher); ok {
+			fl.Flush()
+		}
 		drop(w)
 		return
 	}
@@ -176,12 +205,12 @@ func (d *daemon) pinAdd(w http.ResponseWriter, r *http.Request, args []string, q
 	}
 	switch b {
 	case "stall":
-		<-r.Context().Done()
+		d.waitAbort(w, r, "pin/add")
 		return
 	case "progress-stall":
 		progress(1)
 		progress(2)
-		<-r.Context().Done()
+		d.waitAbort(w, r, "pin/add")
 		return
 	case "repeat-stall":
 		// the daemon stays responsive but fetches nothing more: the same
@@ -284,7 +313,7 @@ func wantType(p *api.Pin) string {
 	return "recursive"
 }
 
-const rule = "case = operation (Pin, Unpin, PinLsCid) x pin (recursive, direct, depth 2; 0-2 origins; optional update source) x prior daemon entry of the CID and of the update source (absent, direct, recursive, indirect) x behaviour of each daemon endpoint the operation talks to (ok, IPFS error body with 500, non-JSON 502, connection dropped, and for pin/add: stall before any progress, progress then stall, progress then the same progress figure repeated forever, progress then connection drop, progress then X-Stream-Error trailer, slow but steady progress longer than the pin timeout) x optional caller cancellation; scripted go-ipfs fake with real status codes and message strings; non-trivial = a fault on a step after the first one, an update pin, or a mode conflict; distinct by canonical rendering"
+const rule = "case = operation (Pin, Unpin, PinLsCid) x pin (recursive, direct, depth 2, depth 0 with the mode field left at recursive; 0-2 origins; optional update source) x prior daemon entry of the CID and of the update source (absent, direct, recursive, indirect) x behaviour of each daemon endpoint the operation talks to (ok, IPFS error body with 500, non-JSON 502, connection dropped before or in the middle of a 200 answer, and for pin/add: stall before any progress, progress then stall, progress then the same progress figure repeated forever, progress then connection drop, progress then X-Stream-Error trailer, slow but steady progress longer than the pin timeout) x optional caller cancellation (with it also: an endpoint that never answers, which the connector must abandon when the caller does); scripted go-ipfs fake with real status codes and message strings; non-trivial = a fault on a step after the first one, an update pin, or a mode conflict; distinct by canonical rendering"
 
 func TestConnector(t *testing.T) {
 	leg := ev.L("connector", rule)
@@ -293,24 +322,40 @@ func TestConnector(t *testing.T) {
 		c := gen.CidN(3).Draw(t, "cid")
 		op := rapid.SampledFrom([]string{"pin", "pin", "pin", "unpin", "ls"}).Draw(t, "op")
 		pin := api.PinCid(c)
-		switch rapid.IntRange(0, 3).Draw(t, "mode") {
+		switch rapid.IntRange(0, 4).Draw(t, "mode") {
 		case 0:
 			pin.MaxDepth, pin.Mode = 0, api.PinModeDirect
 		case 1:
 			pin.MaxDepth = 2
+		case 2:
+			// depth 0 set by hand on a pin built with default options, the way
+			// adder/sharding builds its cluster-DAG pin: the mode field still
+			// says recursive, the depth is what the connector is documented
+			// to go by
+			pin.MaxDepth = 0
 		}
 		for i := rapid.IntRange(0, 2).Draw(t, "norigins"); i > 0; i-- {
 			pin.Origins = append(pin.Origins, gen.Origin().Draw(t, "origin"))
 		}
 		var from cid.Cid
-		if rapid.IntRange(0, 2).Draw(t, "update") == 0 {
+		// (no update source on the hand-made depth-0 pin: nothing builds that)
+		if handMade := pin.MaxDepth == 0 && pin.Mode == api.PinModeRecursive; !handMade && rapid.IntRange(0, 2).Draw(t, "update") == 0 {
 			from = gen.Cids[3+rapid.IntRange(0, 1).Draw(t, "from")]
 			pin.PinUpdate = from
 		}
 		prior := rapid.SampledFrom([]string{"", "", "direct", "recursive", "indirect"}).Draw(t, "prior")
 		priorFrom := rapid.SampledFrom([]string{"", "direct", "recursive", "recursive"}).Draw(t, "priorFrom")
+		cancelAfter := time.Duration(0)
+		if rapid.IntRange(0, 5).Draw(t, "cancel") == 0 {
+			cancelAfter = time.Duration(rapid.IntRange(5, 80).Draw(t, "cancelMs")) * time.Millisecond
+		}
 		beh := map[string]string{}
-		faults := []string{"", "", "", "error500", "nonjson", "drop"}
+		faults := []string{"", "", "", "", "error500", "nonjson", "drop", "cut"}
+		if cancelAfter > 0 {
+			// a daemon that never answers: only with a caller that gives up
+			// (the unpin and request timeouts are seconds long)
+			faults = append(faults, "hang", "hang")
+		}
 		beh["pin/ls"] = rapid.SampledFrom(faults).Draw(t, "b-ls")
 		addB := []string{"", "", "", "error500", "nonjson", "drop", "stall", "progress-stall", "repeat-stall", "progress-drop", "slow-progress"}
 		if !kf.Open(KFTrailer) {
@@ -321,10 +366,6 @@ func TestConnector(t *testing.T) {
 		beh["pin/add"] = rapid.SampledFrom(addB).Draw(t, "b-add")
 		beh["pin/rm"] = rapid.SampledFrom(faults).Draw(t, "b-rm")
 		beh["pin/update"] = rapid.SampledFrom(faults).Draw(t, "b-update")
-		cancelAfter := time.Duration(0)
-		if rapid.IntRange(0, 5).Draw(t, "cancel") == 0 {
-			cancelAfter = time.Duration(rapid.IntRange(5, 80).Draw(t, "cancelMs")) * time.Millisecond
-		}
 
 		dm.mu.Lock()
 		dm.table = map[string]string{}
@@ -338,6 +379,7 @@ func TestConnector(t *testing.T) {
 		dm.requests = nil
 		dm.badUnpin = false
 		dm.capHit = false
+		dm.stuck = ""
 		dm.mu.Unlock()
 
 		ctx, cancel := context.WithCancel(context.Background())
@@ -364,7 +406,11 @@ func TestConnector(t *testing.T) {
 		after := dm.table[c.String()]
 		afterFrom := dm.table[from.String()]
 		badUnpin := dm.badUnpin
+		stuck := dm.stuck
 		dm.mu.Unlock()
+		if stuck != "" {
+			t.Fatalf("the daemon left a %s request unanswered and the connector still had it open %v later (pin timeout %v, caller gave up after %v; returned %v after %v)\ncase: %s", stuck, 40*pinTimeout, pinTimeout, cancelAfter, err, took, desc)
+		}
 		mutating := 0
 		updates := 0
 		for _, r := range reqs {
@@ -409,6 +455,9 @@ func TestConnector(t *testing.T) {
 			}
 			if from.Defined() && afterFrom != priorFrom {
 				t.Fatalf("the update source entry changed from %q to %q\ncase: %s", priorFrom, afterFrom, desc)
+			}
+			if (beh["pin/ls"] == "drop" || beh["pin/ls"] == "cut") && err == nil {
+				t.Fatalf("the pin/ls conversation failed at transport level (%s) but Pin reported success\ncase: %s\nrequests: %v", beh["pin/ls"], desc, reqs)
 			}
 			conflict := want == "direct" && prior == "recursive"
 			// the statement says a pin update is used *only* when the source is
@@ -460,13 +509,16 @@ func TestConnector(t *testing.T) {
 					t.Fatalf("PinLsCid says pinned-as-asked=%v (status %d) but the daemon entry is %q and %q was asked\ncase: %s", ls.IsPinned(pin.MaxDepth), ls, prior, want, desc)
 				}
 			}
-			if (beh["pin/ls"] == "nonjson" || beh["pin/ls"] == "drop") && err == nil {
+			if (beh["pin/ls"] == "nonjson" || beh["pin/ls"] == "drop" || beh["pin/ls"] == "cut") && err == nil {
 				t.Fatalf("transport failure on pin/ls but PinLsCid returned status %d without error\ncase: %s", ls, desc)
 			}
 			nontrivial = prior != "" && prior != want
 		}
 		if err != nil {
 			classes = append(classes, "returned-error")
+		}
+		if beh["pin/ls"] == "hang" || (op == "unpin" && beh["pin/rm"] == "hang") || (op == "pin" && beh["pin/update"] == "hang" && from.Defined()) {
+			classes = append(classes, "endpoint-never-answers")
 		}
 		leg.Case(desc, nontrivial, classes...)
 	})
